@@ -57,6 +57,14 @@ F_PI4 = "; ".join(FN["pi4qpsk"])
 def fresh_pair(cfg):
     """a fresh (modulator, demodulator) from the real constructors, state reset, evaluation mode"""
     mod, dem = mods.build(cfg)
+    if cfg[0] == "pi4qpsk":
+        # the demodulator is told the labelling when its constructor has such an option (it has none on the pinned tree)
+        import inspect
+
+        from kaira.modulations.pi4qpsk import Pi4QPSKDemodulator
+
+        if "gray_coded" in inspect.signature(Pi4QPSKDemodulator.__init__).parameters:
+            dem = Pi4QPSKDemodulator(gray_coded=cfg[1] == "gray")
     mod.eval()
     dem.eval()
     mod.reset_state()
@@ -127,3 +135,482 @@ def roundtrip(ctx, vcfg):
         return
     ctx.ensure("returns_the_bits", SP.shape_is(out.value, bits.shape) and SP.all_eq(P(out.value), P(bits)))
     ctx.ensure("inputs_unmodified", S.land(y.unmodified, out.unmodified))
+
+
+def _dep_cfgs(tier):
+    out = []
+    for c in memoryless(tier):
+        n = npoints(c)
+        names = ["1d.3", "B2.2"] if n <= 16 else (["1d.2", "B1.2"] if n <= 64 else ["1d.2"])
+        out += _variants([c], names)
+    return out
+
+
+def _groups(bits_payload, lead, n, b):
+    """bit group i as a payload array of shape lead + (b,)"""
+    return [bits_payload[..., i * b : (i + 1) * b] for i in range(n)]
+
+
+@obligation("C05.symbol_depends_on_its_bit_group", function="; ".join(FN[k][0] for k in MEMLESS), configs=_dep_cfgs, max_paths=64, timeout_ms=60000, crosscheck=2)
+def symbol_dependency(ctx, vcfg):
+    """mod(bits)[..., i] == mod(bits[..., group i])[..., 0]: symbol i is a function of bit group i alone and it is the same
+    one-symbol function for every position i (so the one-symbol round trip extends to any length)"""
+    cfg, lead, n = _parse(vcfg)
+    mod, _ = fresh_pair(cfg)
+    b = mod.bits_per_symbol
+    bits = ctx.bits("bits", lead + (n * b,))
+    y = ctx.call(mod.forward, bits)
+    ctx.ensure("modulates", y.ok, note=repr(y.exc) if not y.ok else "")
+    if not y.ok:
+        return
+    yr, yi = PC(y.value)
+    for i, g in enumerate(_groups(P(bits), lead, n, b)):
+        yi1 = ctx.call(mod.forward, ctx.tensor(g, bits.dtype))
+        ok = yi1.ok and SP.shape_is(yi1.value, lead + (1,))
+        if ok:
+            r1, i1 = PC(yi1.value)
+            ok = S.land(SP.all_eq(yr[..., i : i + 1], r1), SP.all_eq(yi[..., i : i + 1], i1))
+        ctx.ensure("symbol_i_is_the_one_symbol_map_of_group_i", ok)
+
+
+def _dec_cfgs(tier):
+    out = []
+    for c in memoryless(tier):
+        n = npoints(c)
+        if n <= 16:
+            names = ["1d.3", "B2.2"]
+        elif n <= 64:
+            names = ["1d.2"]
+        else:
+            continue  # 256 points: the per-symbol structure is the same code path as 4/16/64-QAM; the term size is out of budget
+        out += _variants([c], names)
+    out += _variants(mods.catalogue(tier, families=("oqpsk",)), ["1d.3", "B2.2"])  # the OQPSK demodulator itself has no memory
+    return out
+
+
+@obligation("C05.decision_is_per_symbol", function="; ".join(FN[k][1] for k in MEMLESS + ("oqpsk",)), configs=_dec_cfgs, max_paths=64, timeout_ms=60000, crosscheck=2)
+def decision_dependency(ctx, vcfg):
+    """for ALL received values y (symbolic reals, not only constellation points): demod(y)[..., group i] == demod(y[..., i:i+1])"""
+    cfg, lead, n = _parse(vcfg)
+    _, dem = fresh_pair(cfg)
+    b = dem.bits_per_symbol
+    y = ctx.complexes("y", lead + (n,)) if cfg[0] != "identity" else ctx.reals("y", lead + (n,))
+    out = ctx.call(dem.forward, y)
+    ctx.ensure("demodulates", out.ok, note=repr(out.exc) if not out.ok else "")
+    if not out.ok:
+        return
+    ctx.ensure("bit_count", SP.shape_is(out.value, lead + (n * b,)))
+    if not SP.shape_is(out.value, lead + (n * b,)):
+        return
+    o = P(out.value)
+    if cfg[0] == "identity":
+        parts = [(P(y)[..., i : i + 1], None) for i in range(n)]
+    else:
+        yr, yi = PC(y)
+        parts = [(yr[..., i : i + 1], yi[..., i : i + 1]) for i in range(n)]
+    for i, (pr, pi) in enumerate(parts):
+        if pi is None:
+            yi1 = ctx.tensor(pr, y.dtype)
+        else:
+            yi1 = _complex_tensor(ctx, pr, pi)
+        o1 = ctx.call(dem.forward, yi1)
+        ok = o1.ok and SP.shape_is(o1.value, lead + (b,))
+        if ok:
+            ok = SP.all_eq(o[..., i * b : (i + 1) * b], P(o1.value))
+        ctx.ensure("group_i_is_the_one_symbol_decision_on_y_i", ok)
+
+
+def _complex_tensor(ctx, re, im, dtype=torch.complex64):
+    from vk.tensor import SymTensor
+
+    re, im = np.asarray(re, dtype=object), np.asarray(im, dtype=object)
+    if ctx.mode == "sym":
+        return SymTensor(re.copy(), im.copy(), dtype)
+    f = lambda a: torch.tensor([float(v) for v in a.reshape(-1)], dtype=torch.float64).reshape(a.shape).to(torch.float32)
+    return torch.complex(f(re), f(im))
+
+
+# ================================================================================================ schemes with memory
+def _concretise(ctx, bits):
+    """fork until every bit is concrete (int() of a symbolic bit is a decision point; all feasible values are explored)"""
+    p = P(bits)
+    vals = np.empty(p.shape, dtype=object)
+    for idx in np.ndindex(*p.shape):
+        vals[idx] = int(p[idx])
+    return ctx.tensor(vals, bits.dtype), vals
+
+
+def _dpsk_cfgs(tier):
+    out = []
+    for c in mods.catalogue(tier, families=("dpsk", "dbpsk", "dqpsk"), max_points=16):
+        n = npoints(c)
+        if n <= 4:
+            names = ["1d.2", "1d.3", "B1.2", "B2.2"] + (["B2.3", "1d.4"] if tier == "thorough" else [])
+        elif n == 8:
+            names = ["1d.2", "B1.2"] + (["1d.3", "B2.2"] if tier == "thorough" else [])
+        else:
+            names = ["1d.2"] + (["B1.2", "1d.3"] if tier == "thorough" else [])
+        out += _variants([c], names)
+    return out
+
+
+@obligation("C05.dpsk_roundtrip", function=F_DPSK, configs=_dpsk_cfgs, max_paths=5000, timeout_ms=20000, crosscheck=2)
+def dpsk_roundtrip(ctx, vcfg):
+    """all ordered pairs / triples of symbols: every bit pattern is one path (torch.angle runs on concrete data)"""
+    cfg, lead, n = _parse(vcfg)
+    mod, dem = fresh_pair(cfg)
+    b = mod.bits_per_symbol
+    sbits = ctx.bits("bits", lead + (n * b,))
+    bits, vals = _concretise(ctx, sbits)
+    y = ctx.call(mod.forward, bits)
+    ctx.ensure("modulates", y.ok, note=repr(y.exc) if not y.ok else "")
+    if not y.ok:
+        return
+    ctx.ensure("symbol_count", SP.shape_is(y.value, lead + (n,)), note=f"symbols {tuple(y.value.shape)}, bits {tuple(bits.shape)}, bits_per_symbol {b}")
+    out = ctx.call(dem.forward, y.value)
+    ctx.ensure("demodulates", out.ok, note=repr(out.exc) if not out.ok else "")
+    if not out.ok:
+        return
+    ctx.ensure("returns_the_bits_after_the_reference_symbol", SP.shape_is(out.value, lead + ((n - 1) * b,)) and SP.all_eq(P(out.value), vals[..., b:]))
+    ctx.ensure("inputs_unmodified", S.land(y.unmodified, out.unmodified))
+    ctx.ensure("state_unchanged_in_eval", _state_is_reset(mod))
+
+
+def _state_is_reset(mod):
+    """eval(): forward must not move the carry-over state (it is what reset_state() set)"""
+    with torch._C.DisableTorchFunctionSubclass():
+        if hasattr(mod, "_phase_memory"):
+            (r, i) = PC(mod._phase_memory)
+            return S.land(SP.all_eq(r.reshape(-1), [1]), SP.all_eq(i.reshape(-1), [0]))
+        if hasattr(mod, "_delayed_quad"):
+            return SP.all_eq(P(mod._delayed_quad).reshape(-1), [0])
+        if hasattr(mod, "_use_rotated"):
+            return SP.all_eq(P(mod._use_rotated).reshape(-1), [False])
+    return True
+
+
+def _cmul(ar, ai, br, bi):
+    re = np.empty(ar.shape, dtype=object)
+    im = np.empty(ar.shape, dtype=object)
+    for idx in np.ndindex(*ar.shape):
+        re[idx] = S.sub(S.mul(ar[idx], br[idx]), S.mul(ai[idx], bi[idx]))
+        im[idx] = S.add(S.mul(ar[idx], bi[idx]), S.mul(ai[idx], br[idx]))
+    return re, im
+
+
+from fractions import Fraction  # noqa: E402
+
+TOL = dict(rtol=Fraction(1, 10**6), atol=Fraction(1, 10**6))
+
+
+def _dpsk_step_cfgs(tier):
+    out = []
+    for c in mods.catalogue(tier, families=("dpsk", "dbpsk", "dqpsk"), max_points=16):
+        out += _variants([c], ["1d.3", "B2.2"] + (["1d.1"] if npoints(c) > 2 else []))
+    return out
+
+
+@obligation("C05.dpsk_differential_step", function=FN["dpsk"][0], configs=_dpsk_step_cfgs, max_paths=64, timeout_ms=60000, crosscheck=2)
+def dpsk_step(ctx, vcfg):
+    """symbolic bits: y[0] == mod(group 0)[0] (reference 1+0j), y[i] == y[i-1] * mod(group i)[0]: symbol i depends on groups <= i
+    through the previous symbol only, by the same step for every i (extends pairs/triples to long sequences)"""
+    cfg, lead, n = _parse(vcfg)
+    mod, _ = fresh_pair(cfg)
+    b = mod.bits_per_symbol
+    bits = ctx.bits("bits", lead + (n * b,))
+    y = ctx.call(mod.forward, bits)
+    ctx.ensure("modulates", y.ok, note=repr(y.exc) if not y.ok else "")
+    if not y.ok:
+        return
+    ok = SP.shape_is(y.value, lead + (n,))
+    ctx.ensure("symbol_count", ok, note=f"symbols {tuple(y.value.shape)}, bits {tuple(bits.shape)}, bits_per_symbol {b}")
+    if not ok:
+        return
+    yr, yi = PC(y.value)
+    if n * b == 1:
+        return  # a single bit is read as a symbol index by DPSKModulator.forward (same value for order 2); nothing to compare
+    for i, g in enumerate(_groups(P(bits), lead, n, b)):
+        if b == 1:
+            # a one-bit input is interpreted as a symbol index by the real forward: feed the group twice and use the first symbol
+            g = np.concatenate([g, g], axis=-1)
+        s = ctx.call(mod.forward, ctx.tensor(g, bits.dtype))
+        if not s.ok:
+            ctx.ensure("differential_step", False, note=repr(s.exc))
+            continue
+        sr, si = PC(s.value)
+        sr, si = sr[..., 0], si[..., 0]
+        if i == 0:
+            ctx.ensure("first_symbol_is_reference_times_shift", S.land(SP.all_close(yr[..., 0], sr, **TOL), SP.all_close(yi[..., 0], si, **TOL)))
+        else:
+            pr, pi = _cmul(yr[..., i - 1], yi[..., i - 1], sr, si)
+            ctx.ensure("differential_step", S.land(SP.all_close(yr[..., i], pr, **TOL), SP.all_close(yi[..., i], pi, **TOL)))
+    ctx.ensure("state_unchanged_in_eval", _state_is_reset(mod))
+
+
+# ------------------------------------------------------------------------------------------------ OQPSK
+def _oq_cfgs(tier):
+    return _variants(mods.catalogue(tier, families=("oqpsk",)), ["1d.1", "1d.2", "1d.3", "B1.2", "B2.3"])
+
+
+@obligation("C05.oqpsk_roundtrip", function=F_OQPSK, configs=_oq_cfgs, max_paths=64, timeout_ms=60000, crosscheck=2)
+def oqpsk_roundtrip(ctx, vcfg):
+    cfg, lead, n = _parse(vcfg)
+    mod, dem = fresh_pair(cfg)
+    bits = ctx.bits("bits", lead + (2 * n,))
+    y = ctx.call(mod.forward, bits)
+    ctx.ensure("modulates", y.ok, note=repr(y.exc) if not y.ok else "")
+    if not y.ok:
+        return
+    ctx.ensure("symbol_count", SP.shape_is(y.value, lead + (n,)), note=f"symbols {tuple(y.value.shape)}, bits {tuple(bits.shape)}")
+    out = ctx.call(dem.forward, y.value)
+    ctx.ensure("demodulates", out.ok, note=repr(out.exc) if not out.ok else "")
+    if not out.ok:
+        return
+    ok = SP.shape_is(out.value, lead + (2 * n,))
+    ctx.ensure("bit_count", ok)
+    if not ok:
+        return
+    o, x = P(out.value), P(bits)
+    ctx.ensure("in_phase_stream_equal", SP.all_eq(o[..., 0::2], x[..., 0::2]))
+    if n > 1:
+        ctx.ensure("quadrature_stream_delayed_by_one_symbol", SP.all_eq(o[..., 3::2], x[..., 1:-2:2]))
+    ctx.ensure("inputs_unmodified", S.land(y.unmodified, out.unmodified))
+    ctx.ensure("state_unchanged_in_eval", _state_is_reset(mod))
+
+
+@obligation("C05.oqpsk_offset_structure", function=FN["oqpsk"][0], configs=lambda tier: _variants(mods.catalogue(tier, families=("oqpsk",)), ["1d.3", "B2.3"]), max_paths=64, timeout_ms=60000, crosscheck=2)
+def oqpsk_structure(ctx, vcfg):
+    """re y[i] == re mod(group i)[0];  im y[i] == im mod(group i-1 ++ 00)[1]  (the same two one-symbol maps at every position)"""
+    cfg, lead, n = _parse(vcfg)
+    mod, _ = fresh_pair(cfg)
+    bits = ctx.bits("bits", lead + (2 * n,))
+    y = ctx.call(mod.forward, bits)
+    ctx.ensure("modulates", y.ok and SP.shape_is(y.value, lead + (n,)), note=repr(y.exc) if not y.ok else "")
+    if not (y.ok and SP.shape_is(y.value, lead + (n,))):
+        return
+    yr, yi = PC(y.value)
+    groups = _groups(P(bits), lead, n, 2)
+    zeros = np.zeros(lead + (2,), dtype=object)
+    for i, g in enumerate(groups):
+        s = ctx.call(mod.forward, ctx.tensor(g, bits.dtype))
+        ctx.ensure("in_phase_of_symbol_i_from_group_i", s.ok and SP.all_eq(yr[..., i], PC(s.value)[0][..., 0]))
+        if i >= 1:
+            s2 = ctx.call(mod.forward, ctx.tensor(np.concatenate([groups[i - 1], zeros], axis=-1), bits.dtype))
+            ctx.ensure("quadrature_of_symbol_i_from_group_i_minus_1", s2.ok and SP.all_eq(yi[..., i], PC(s2.value)[1][..., 1]))
+
+
+# ------------------------------------------------------------------------------------------------ pi/4-QPSK
+def _pi4_cfgs(tier):
+    return _variants(mods.catalogue(tier, families=("pi4qpsk",)), ["1d.1", "1d.2", "1d.3", "B1.1", "B1.2", "B2.3"])
+
+
+@obligation("C05.pi4qpsk_roundtrip", function=F_PI4, configs=_pi4_cfgs, max_paths=256, timeout_ms=60000, crosscheck=2)
+def pi4_roundtrip(ctx, vcfg):
+    cfg, lead, n = _parse(vcfg)
+    mod, dem = fresh_pair(cfg)
+    bits = ctx.bits("bits", lead + (2 * n,))
+    y = ctx.call(mod.forward, bits)
+    ctx.ensure("modulates", y.ok, note=repr(y.exc) if not y.ok else "")
+    if not y.ok:
+        return
+    ctx.ensure("symbol_count", SP.shape_is(y.value, lead + (n,)), note=f"symbols {tuple(y.value.shape)}, bits {tuple(bits.shape)}, bits_per_symbol 2")
+    out = ctx.call(dem.forward, y.value)
+    ctx.ensure("demodulates", out.ok, note=repr(out.exc) if not out.ok else "")
+    if not out.ok:
+        return
+    ctx.ensure("returns_the_bits", SP.shape_is(out.value, bits.shape) and SP.all_eq(P(out.value), P(bits)), note=f"demodulator output {tuple(out.value.shape)} {out.value.dtype}")
+    ctx.ensure("inputs_unmodified", S.land(y.unmodified, out.unmodified))
+    ctx.ensure("state_unchanged_in_eval", S.land(_state_is_reset(mod), _state_is_reset(dem)))
+
+
+@obligation("C05.pi4qpsk_alternation", function=FN["pi4qpsk"][0], configs=lambda tier: _variants(mods.catalogue(tier, families=("pi4qpsk",)), ["1d.3", "B2.3"]), max_paths=64, timeout_ms=60000, crosscheck=2)
+def pi4_structure(ctx, vcfg):
+    """y[i] == mod(group i)[0] for even i,  y[i] == mod(00 ++ group i)[1] for odd i (two one-symbol maps, alternating)"""
+    cfg, lead, n = _parse(vcfg)
+    mod, _ = fresh_pair(cfg)
+    bits = ctx.bits("bits", lead + (2 * n,))
+    y = ctx.call(mod.forward, bits)
+    ctx.ensure("modulates", y.ok and SP.shape_is(y.value, lead + (n,)), note=repr(y.exc) if not y.ok else f"symbols {tuple(y.value.shape)}")
+    if not (y.ok and SP.shape_is(y.value, lead + (n,))):
+        return
+    yr, yi = PC(y.value)
+    zeros = np.zeros(lead + (2,), dtype=object)
+    lead1 = lead if lead else (1,)  # one-symbol probes are sent batched: a 1-D input of <= 4 elements is read as symbol indices
+    for i, g in enumerate(_groups(P(bits), lead, n, 2)):
+        probe = g if i % 2 == 0 else np.concatenate([zeros, g], axis=-1)
+        s = ctx.call(mod.forward, ctx.tensor(probe.reshape(lead1 + (-1,)), bits.dtype))
+        k = i % 2
+        ok = s.ok and SP.shape_is(s.value, lead1 + (k + 1,))
+        if ok:
+            sr, si = PC(s.value)
+            ok = S.land(SP.all_eq(yr[..., i].reshape(-1), sr[..., k].reshape(-1)), SP.all_eq(yi[..., i].reshape(-1), si[..., k].reshape(-1)))
+        ctx.ensure("symbol_i_from_group_i_and_parity", ok)
+
+
+# ================================================================================================ registry (ground)
+REGISTRY_NAMES = {
+    "bpsk": ("bpskmodulator", "bpskdemodulator", "BPSKModulator", "BPSKDemodulator", "psk"),
+    "qpsk": ("qpskmodulator", "qpskdemodulator", "QPSKModulator", "QPSKDemodulator", "psk"),
+    "psk": ("pskmodulator", "pskdemodulator", "PSKModulator", "PSKDemodulator", "psk"),
+    "qam": ("qammodulator", "qamdemodulator", "QAMModulator", "QAMDemodulator", "qam"),
+    "pam": ("pammodulator", "pamdemodulator", "PAMModulator", "PAMDemodulator", "pam"),
+    "dpsk": ("dpskmodulator", "dpskdemodulator", "DPSKModulator", "DPSKDemodulator", "dpsk"),
+    "dbpsk": ("dbpsk", "dbpsk", "DBPSKModulator", "DBPSKDemodulator", "dpsk"),
+    "dqpsk": ("dqpsk", "dqpsk", "DQPSKModulator", "DQPSKDemodulator", "dpsk"),
+    "oqpsk": ("oqpsk", "oqpsk", "OQPSKModulator", "OQPSKDemodulator", "oqpsk"),
+    "pi4qpsk": ("pi4qpsk", "pi4qpsk", "Pi4QPSKModulator", "Pi4QPSKDemodulator", "pi4qpsk"),
+    "identity": ("identitymodulator", "identitydemodulator", "IdentityModulator", "IdentityDemodulator", "identity"),
+}
+
+
+def registry_kwargs(cfg, mode):
+    fam = cfg[0]
+    if fam in ("qpsk", "oqpsk"):
+        return {"normalize": cfg[1] == "norm"}
+    if fam in ("psk", "dpsk"):
+        return {"order": cfg[1], "gray_coding": cfg[2] == "gray"}
+    if fam in ("qam", "pam"):
+        return {"order": cfg[1], "gray_coding": cfg[2] == "gray", "normalize": cfg[3] == "norm"}
+    if fam == "pi4qpsk":
+        return {"gray_coded": cfg[1] == "gray"} if mode == "modulator" else {}
+    return {}
+
+
+def _buffers(m):
+    return {k: v for k, v in m.named_buffers()}
+
+
+@obligation("C05.registry", function=M + "registry.py:ModulationRegistry.create; " + M + "registry.py:ModulationRegistry.create_modulator; " + M + "registry.py:ModulationRegistry.create_demodulator; " + M + "registry.py:ModulationRegistry.get; " + M + "registry.py:ModulationRegistry.register",
+            configs=lambda tier: mods.catalogue(tier) + [Cfg("identity")], kind="ground", engine="ground")
+def registry(cfg):
+    """ModulationRegistry.create(name, mode, **options) is an instance of exactly the class the C05 contract is attached to,
+    configured like the directly constructed object (same buffers)"""
+    import importlib
+
+    from kaira.modulations import ModulationRegistry as R
+
+    fam = cfg[0]
+    mname, dname, mcls, dcls, module = REGISTRY_NAMES[fam]
+    pymod = importlib.import_module(f"kaira.modulations.{module}")
+    direct = dict(zip(("modulator", "demodulator"), mods.build(cfg)))
+    for mode, name, clsname in (("modulator", mname, mcls), ("demodulator", dname, dcls)):
+        want = getattr(pymod, clsname)
+        yield f"direct_constructor_is_contract_class.{mode}", type(direct[mode]) is want, f"mods.build gives {type(direct[mode]).__name__}, contract attached to {clsname}"
+        try:
+            got_cls = R.get(name, mode)
+            obj = R.create(name, mode, **registry_kwargs(cfg, mode))
+        except Exception as e:
+            yield f"create_returns_contract_class.{mode}", False, f"ModulationRegistry.create({name!r}, {mode!r}) raised {e!r}"
+            continue
+        yield f"get_returns_contract_class.{mode}", got_cls is want, f"ModulationRegistry.get({name!r}, {mode!r}) -> {got_cls.__module__}.{got_cls.__qualname__}"
+        yield f"create_returns_contract_class.{mode}", type(obj) is want, f"ModulationRegistry.create({name!r}, {mode!r}, {registry_kwargs(cfg, mode)}) -> {type(obj).__qualname__}"
+        b1, b2 = _buffers(obj), _buffers(direct[mode])
+        same = b1.keys() == b2.keys() and all(b1[k].shape == b2[k].shape and b1[k].dtype == b2[k].dtype and bool(torch.equal(b1[k], b2[k])) for k in b1)
+        same = same and obj.bits_per_symbol == direct[mode].bits_per_symbol
+        yield f"create_configures_like_constructor.{mode}", same, f"buffers {sorted(b1)} and bits_per_symbol {obj.bits_per_symbol} equal those of the direct constructor call: {same}"
+    # the two default-mode entry points agree
+    try:
+        yield "default_mode_is_modulator", type(R.create(mname, **registry_kwargs(cfg, "modulator"))) is getattr(pymod, mcls), "create(name) without mode builds the modulator"
+    except Exception as e:
+        yield "default_mode_is_modulator", False, repr(e)
+
+
+# ================================================================================================ long sequences (bounded stand-in)
+def expected_roundtrip(cfg, bits, b):
+    """what the property demands of demod(mod(bits)); returns (expected bit list per row, mask of positions that are claimed)"""
+    fam = cfg[0]
+    n = bits.shape[-1]
+    if fam in ("dpsk", "dbpsk", "dqpsk"):
+        return bits[..., b:], torch.ones_like(bits[..., b:], dtype=torch.bool)
+    if fam == "oqpsk":
+        exp = bits.clone()
+        exp[..., 3::2] = bits[..., 1:-2:2]
+        mask = torch.ones_like(bits, dtype=torch.bool)
+        mask[..., 1] = False  # start-up: the first quadrature decision carries no transmitted bit
+        return exp, mask
+    return bits, torch.ones_like(bits, dtype=torch.bool)
+
+
+def _long_cfgs(tier):
+    return mods.catalogue(tier, max_points=256 if tier == "thorough" else 64) + [Cfg("identity")]
+
+
+@obligation("C05.long_sequences", function="; ".join(f for k in FN for f in FN[k]), configs=_long_cfgs, kind="custom", engine="standin")
+def long_sequences(spec, cfg, tier, seed):
+    """bounded: seeded random long bit sequences, 1-D and (B, .) layouts, natively on the real pair"""
+    t0 = time.time()
+    rng = random.Random(seed * 7919 + 23)
+    nseq = 6 if tier == "quick" else 40
+    fails = {"returns_the_bits": None, "symbol_count": None}
+    evals = 0
+    for k in range(nseq):
+        mod, dem = fresh_pair(cfg)
+        b = mod.bits_per_symbol
+        nsym = rng.choice([5, 17, 64, 257]) if tier == "quick" else rng.choice([5, 17, 64, 257, 1000])
+        lead = () if k % 2 == 0 else (rng.choice([1, 2, 3]),)
+        g = torch.Generator().manual_seed(rng.getrandbits(40))
+        bits = torch.randint(0, 2, lead + (nsym * b,), generator=g).float()
+        try:
+            with torch.no_grad():
+                y = mod(bits)
+                out = dem(y)
+        except Exception as e:
+            fails["returns_the_bits"] = fails["returns_the_bits"] or {"layout": list(bits.shape), "raised": repr(e)}
+            continue
+        evals += 1
+        if tuple(y.shape) != lead + (nsym,):
+            fails["symbol_count"] = fails["symbol_count"] or {"bits_shape": list(bits.shape), "symbols_shape": list(y.shape), "bits_per_symbol": b}
+        exp, mask = expected_roundtrip(cfg, bits, b)
+        ok = tuple(out.shape) == tuple(exp.shape) and bool(torch.all((out.float() == exp) | ~mask))
+        if not ok and fails["returns_the_bits"] is None:
+            w = {"bits_shape": list(bits.shape), "output_shape": list(out.shape)}
+            if tuple(out.shape) == tuple(exp.shape):
+                bad = torch.nonzero(((out.float() != exp) & mask).reshape(-1))
+                w["first_wrong_position"] = int(bad[0])
+                w["wrong_positions"] = int(bad.numel())
+                w["seed"] = seed
+            fails["returns_the_bits"] = w
+    res = []
+    for clause, fail in fails.items():
+        r = ObResult(prop="C05", ob=f"{spec.id}/{clause}", config=str(cfg), function=spec.function, engine="standin", backend="native", kind="bounded")
+        r.verdict = "discharged" if fail is None else "refuted"
+        r.paths = evals
+        r.witness = fail
+        r.replay_confirmed = None if fail is None else True
+        r.detail = f"bounded: {nseq} seeded random sequences of 5..{257 if tier == 'quick' else 1000} symbols, layouts 1-D and (B, .); lengths > 3 symbols are covered by proof only through the per-symbol / step dependency obligations"
+        r.wall_s = round(time.time() - t0, 2)
+        res.append(r)
+    return res
+
+
+@obligation("C05.pi4qpsk_decision_structure", function=FN["pi4qpsk"][1], configs=lambda tier: _variants(mods.catalogue(tier, families=("pi4qpsk",)), ["1d.3", "B2.3"]), max_paths=64, timeout_ms=60000, crosscheck=2)
+def pi4_decision_structure(ctx, vcfg):
+    """for ALL received y (symbolic reals): the decision on symbol i is the one-symbol decision on y[i] with the constellation of
+    its parity: even i: demod(y[i:i+1])[group 0]; odd i: demod(y[0] ++ y[i])[group 1]   (groups: b bits batched, 1 index for 1-D input)"""
+    cfg, lead, n = _parse(vcfg)
+    _, dem = fresh_pair(cfg)
+    y = ctx.complexes("y", lead + (n,))
+    out = ctx.call(dem.forward, y)
+    ctx.ensure("demodulates", out.ok, note=repr(out.exc) if not out.ok else "")
+    if not out.ok:
+        return
+    w = out.value.shape[-1] // n  # 2 bits per symbol (batched) or 1 index per symbol (1-D hard decisions on the pinned tree)
+    ok = SP.shape_is(out.value, lead + (n * w,)) and w in (1, 2)
+    ctx.ensure("output_is_per_symbol_groups", ok, note=f"output {tuple(out.value.shape)} for {n} symbols")
+    if not ok:
+        return
+    o = P(out.value)
+    yr, yi = PC(y)
+    for i in range(n):
+        if i % 2 == 0:
+            probe = _complex_tensor(ctx, yr[..., i : i + 1], yi[..., i : i + 1])
+            k = 0
+        else:
+            probe = _complex_tensor(ctx, np.concatenate([yr[..., 0:1], yr[..., i : i + 1]], axis=-1), np.concatenate([yi[..., 0:1], yi[..., i : i + 1]], axis=-1))
+            k = 1
+        o1 = ctx.call(dem.forward, probe)
+        good = o1.ok and SP.shape_is(o1.value, lead + ((k + 1) * w,))
+        if good:
+            good = SP.all_eq(o[..., i * w : (i + 1) * w], P(o1.value)[..., k * w : (k + 1) * w])
+        ctx.ensure("decision_i_from_y_i_and_parity", good)
+    ctx.ensure("state_unchanged_in_eval", _state_is_reset(dem))
